@@ -298,10 +298,12 @@ def check_plain_export(raw, case, want, added, fails, obs):
             ok = indep.verify(s, k[0]['primary'], indep.sig_hash_input(s, document=doc))
         except Exception as ex:
             ok = False
-            obs.append('independent verifier error on signature %d: %s %s' % (i, type(ex).__name__, ex))
+            obs.append({'detail': 'independent-verifier-error', 'literal_format': lit['format'], 'non_ascii_content': any(b > 127 for b in lit['data']),
+                        'what': 'independent verifier error on signature %d: %s %s' % (i, type(ex).__name__, ex)})
         if not ok:
-            obs.append('signature (type %d) over a format %r literal does not verify over the literal data octets with the independent verifier [content %s]'
-                       % (s['type'], lit['format'], case['content']))
+            obs.append({'detail': 'signature-not-over-literal-octets', 'literal_format': lit['format'], 'non_ascii_content': any(b > 127 for b in lit['data']),
+                        'what': 'signature (type %d, by %s) over a format %r literal does not verify over the literal data octets with the independent '
+                                'RFC 4880 5.2.4 verifier [content %s]' % (s['type'], iss.hex(), lit['format'], case['content'])})
     return lit
 
 
@@ -351,7 +353,9 @@ def run_case(case):
             raw = bytes(m)
             check_plain_export(raw, case, want, added, fails, obs)
             if 'input' in want and isinstance(want['input'], str) and want['format'] != 'b' and m.message != want['input']:
-                obs.append('PGPMessage.new(%r..., format=%r).message returns %r...' % (want['input'][:12], case.get('format'), m.message[:12]))
+                obs.append({'detail': 'text-content-read-back-differs', 'literal_format': want['format'], 'non_ascii_content': any(b > 127 for b in want['octets']),
+                            'what': 'PGPMessage.new(%r..., format=%r).message returns %r...: the content is not read under the encoding it was written in'
+                                    % (want['input'][:12], case.get('format'), m.message[:12])})
             check_roundtrip(m, raw, case, cfg, fails, 'binary', raw)
             if case.get('armor', True):
                 check_roundtrip(m, raw, case, cfg, fails, 'armored', str(m))
@@ -439,7 +443,8 @@ def component(tier='quick', seed=0, known=()):
     with ctx.Pool(16) as pool:
         results = list(pool.imap_unordered(run_case, sorted(cases, key=cost, reverse=True), chunksize=2))
     results.sort(key=lambda r: r[0]['id'])
-    violations, known_hits, by_sig, observations = [], [], {}, collections.OrderedDict()
+    known = [f for f in known if f.get('status', 'known') == 'known']
+    violations, known_hits, by_sig = [], [], {}
     total_bad = refused = 0
     distinct = set()
     for case, fails, obs, status in results:
@@ -447,9 +452,26 @@ def component(tier='quick', seed=0, known=()):
             refused += 1
             continue
         distinct.add(tuple(sorted((k, repr(v)) for k, v in case.items() if k not in ('id', 'tier'))))
+        seen_details = set()
         for o in obs:
-            key = o.split('(')[0][:60] if o.startswith('PGPMessage.new') else o
-            observations.setdefault(key, {'count': 0, 'what': o, 'first_case': {k: v for k, v in case.items() if k != 'tier'}})['count'] += 1
+            # content / signature clauses that carry a distinguishing `detail` (one report per case and detail)
+            if o['detail'] in seen_details:
+                continue
+            seen_details.add(o['detail'])
+            total_bad += 1
+            rep = dict({k: v for k, v in case.items() if k != 'tier'}, signer_config=SIGNER_CONFIGS[case['signers']], detail=o['detail'],
+                       literal_format=o['literal_format'], non_ascii_content=o['non_ascii_content'], same_class_count=1)
+            k = match_known(rep, known)
+            if k is not None:
+                if k not in known_hits:
+                    known_hits.append(k)
+                continue
+            sig = (o['detail'], o['literal_format'], o['non_ascii_content'])
+            if sig in by_sig:
+                by_sig[sig]['case']['same_class_count'] += 1
+            else:
+                by_sig[sig] = {'case': rep, 'what': o['what']}
+                violations.append(by_sig[sig])
         if fails:
             total_bad += 1
             rep = dict({k: v for k, v in case.items() if k != 'tier'}, signer_config=SIGNER_CONFIGS[case['signers']], fails=fails[:4], same_class_count=1)
@@ -478,7 +500,6 @@ def component(tier='quick', seed=0, known=()):
             'samples': [{k: v for k, v in results[i][0].items() if k != 'tier'} for i in (0, len(results) // 2, len(results) - 1)],
             'violations': violations[:6],
             'violations_total': total_bad,
-            'observations_outside_property': list(observations.values())[:8],
             'known_hits': known_hits}
 
 
